@@ -226,7 +226,7 @@ def _stream_list_model(ctx):
     from pycel import ExcelCompiler
     rng = ctx.rng
     nwb = ctx.n(16, 200)
-    calls, meta = [], []
+    calls, meta, hcalls, hmeta = [], [], [], []
     for k in range(nwb):
         wb = wbgen.gen_workbook(rng, ncells=rng.randrange(4, 7), pool=wbgen.CLEAN_POOL + [None, 0, 1, True],
                                 blank_results=False)
@@ -286,6 +286,44 @@ def _stream_list_model(ctx):
                               impl=snap2, expected=snap)
             calls.append(('evlist', [wb.wire(), [[0, i] for i in prefix], list(members)]))
             meta.append((case, got, snap))
+        # C05_history_order: the same Build (= _gen_graph, compiled but not evaluated) / Evaluate operations in
+        # two orders, the second with one operation repeated: equal final cell maps and cached values
+        ops = [(rng.choice((0, 0, 2)), rng.choice(cells)) for _ in range(rng.randrange(2, 7))]
+        ops2 = ops + [rng.choice(ops)]
+        rng.shuffle(ops2)
+        snaps = []
+        hcase = dict(call='history-order', workbook=desc,
+                     args=[[('evaluate' if o == 0 else 'build', wb.nodes[i]['addr']) for o, i in ops],
+                           [('evaluate' if o == 0 else 'build', wb.nodes[i]['addr']) for o, i in ops2]])
+        try:
+            for seq in (ops, ops2):
+                ch = ExcelCompiler(excel=wb.to_openpyxl())
+                for o, i in seq:
+                    if o == 0:
+                        if canon(ch.evaluate(wb.nodes[i]['addr'])) != refv[i]:
+                            ctx.violation(hcase, f"value of {wb.nodes[i]['addr']} depends on the history")
+                    else:
+                        ch._gen_graph(wb.nodes[i]['addr'])
+                snaps.append(wbgen.snapshot(ch, wb))
+        except Exception as exc:      # noqa: BLE001
+            ctx.violation(hcase, f"history raises {type(exc).__name__}: {exc}"[:200])
+            continue
+        ctx.count(('history-order', k), kind='history-order')
+        if snaps[0] != snaps[1]:
+            ctx.violation(hcase, "the final cell map / cached values depend on the order of the operations",
+                          impl=snaps[1], expected=snaps[0])
+        hcalls.append(('history', [wb.wire(), [[o, i] for o, i in ops]]))
+        hmeta.append((hcase, snaps[0]))
+    if ctx.model and hcalls:
+        for (hcase, snap), ans in zip(hmeta, ctx.model.batch(hcalls)):
+            try:
+                msnap = {i: _canon_model(dec_val(x[1])) for i, x in enumerate(ans[-1][1]) if x[0] == 1}
+            except Exception:      # noqa: BLE001
+                ctx.divergence(hcase, snap, ans, 'Model/Graph.v history entry rejected the input')
+                continue
+            if set(msnap) != set(snap) or any(not same(msnap[i], snap[i]) for i in snap):
+                ctx.divergence(hcase, snap, msnap,
+                               'Model/Graph.v final state of a Build/Evaluate history = ExcelCompiler.cell_map values')
     if ctx.model and calls:
         for (case, got, snap), ans in zip(meta, ctx.model.batch(calls)):
             try:
@@ -304,7 +342,10 @@ def _stream_list_model(ctx):
         "list / tuple / generator of 1..2n addresses drawn with repetition in random order: result type kept, "
         "every position = the cell evaluated alone, the whole answer and the final cell map (built cells, cached "
         "values) = Model/C05List.v evaluate_list on the extracted machine, and a second compiler given the "
-        "members shuffled with one more repetition ends with the same cell map and cached values (distinct = distinct (workbook, history, address sequence))")
+        "members shuffled with one more repetition ends with the same cell map and cached values; history-order - "
+        "2-6 random Build (_gen_graph: compiled, not evaluated) / Evaluate operations on the cells and the same "
+        "operations shuffled with one repeated, on two fresh compilers: equal final cell maps and cached values, "
+        "= the extracted machine's final state (distinct = distinct (workbook, history, address sequence))")
 
 
 def _canon_model(v):
